@@ -3,8 +3,155 @@
 -/
 import Pk.Model.Manager
 import Pk.Proofs.MgrLocks
-
 namespace Pk.Proofs.MgrViews
 open Pk.Mgr
+
+theorem nget_nil {α} (k : Nat) : nget ([] : List (Nat × α)) k = none := rfl
+
+theorem nget_cons {α} (a : Nat × α) (l : List (Nat × α)) (k : Nat) :
+    nget (a :: l) k = if a.1 = k then some a.2 else nget l k := by
+  unfold nget
+  by_cases h : a.1 = k <;> simp [h]
+
+theorem nget_nins {α} (k : Nat) (v : α) (l : List (Nat × α)) (k' : Nat) :
+    nget (nins k v l) k' = if k' = k then some v else nget l k' := by
+  induction l with
+  | nil => simp [nins, nget_cons, nget_nil, eq_comm]
+  | cons a l ih =>
+    obtain ⟨ka, va⟩ := a
+    unfold nins
+    split
+    · simp [nget_cons, eq_comm]
+    · split
+      · subst_vars; simp only [nget_cons]; split <;> simp_all [eq_comm]
+      · simp only [nget_cons, ih]
+        split <;> split <;> simp_all
+
+theorem nget_ndel {α} (l : List (Nat × α)) (k k' : Nat) :
+    nget (ndel l k) k' = if k' = k then none else nget l k' := by
+  induction l with
+  | nil => simp [ndel, nget_nil]
+  | cons a l ih =>
+    simp only [ndel] at ih ⊢
+    simp only [List.filter_cons]
+    by_cases h : a.1 = k
+    · simp only [h, bne_self_eq_false, Bool.false_eq_true, ↓reduceIte, ih, nget_cons]
+      grind
+    · simp [h, ih, nget_cons]; grind
+
+theorem lock_cons (u : List (Nat × Nat)) (g : Nat) (fs : List Nat) :
+    lock u (g :: fs) = lock (nins g ((nget u g).getD 0 + 1) u) fs := rfl
+
+theorem lock_count (u : List (Nat × Nat)) (fs : List Nat) (f : Nat) :
+    (nget (lock u fs) f).getD 0 = (nget u f).getD 0 + fs.count f := by
+  induction fs generalizing u with
+  | nil => simp [lock]
+  | cons g fs ih =>
+    rw [lock_cons, ih, nget_nins, List.count_cons]
+    by_cases h : f = g
+    · subst h; simp; omega
+    · have : (g == f) = false := by simp; omega
+      simp [h, this]
+
+/-- one iteration of `release` -/
+def rel1 (s : St) (f : Nat) : St :=
+  match nget s.used f with
+  | none => s
+  | some n => if n ≤ 1 then { s with used := ndel s.used f, files := ndel s.files f }
+              else { s with used := nins f (n - 1) s.used }
+
+theorem release_nil (s : St) : release s [] = s := rfl
+theorem release_cons (s : St) (g : Nat) (fs : List Nat) :
+    release s (g :: fs) = release (rel1 s g) fs := rfl
+
+theorem rel1_eta (s : St) (g : Nat) :
+    rel1 s g = { s with used := (rel1 s g).used, files := (rel1 s g).files } := by
+  unfold rel1; split
+  · rfl
+  · split <;> rfl
+
+theorem release_eta (s : St) (fs : List Nat) :
+    release s fs = { s with used := (release s fs).used, files := (release s fs).files } := by
+  induction fs generalizing s with
+  | nil => rfl
+  | cons g fs ih =>
+    rw [release_cons, ih, rel1_eta s g]
+
+theorem rel1_used (s : St) (g f : Nat) :
+    (nget (rel1 s g).used f).getD 0 = (nget s.used f).getD 0 - (if g = f then 1 else 0) := by
+  unfold rel1
+  split
+  · rename_i h; by_cases hg : g = f
+    · subst hg; simp [h]
+    · simp [hg]
+  · rename_i n h
+    split
+    · simp only [nget_ndel]
+      by_cases hg : g = f
+      · subst hg; simp [h]; omega
+      · have : ¬ f = g := fun h => hg h.symm
+        simp [hg, this]
+    · simp only [nget_nins]
+      by_cases hg : g = f
+      · subst hg; simp [h]
+      · have : ¬ f = g := fun h => hg h.symm
+        simp [hg, this]
+
+theorem release_used (s : St) (fs : List Nat) (f : Nat) :
+    (nget (release s fs).used f).getD 0 = (nget s.used f).getD 0 - fs.count f := by
+  induction fs generalizing s with
+  | nil => simp [release_nil]
+  | cons g fs ih =>
+    rw [release_cons, ih, rel1_used, List.count_cons]
+    by_cases hg : g = f
+    · subst hg; simp; omega
+    · have : (g == f) = false := by simp [hg]
+      simp [hg, this]
+
+theorem rel1_files (s : St) (g f : Nat) (h : (if g = f then 1 else 0) < (nget s.used f).getD 0) :
+    nget (rel1 s g).files f = nget s.files f := by
+  unfold rel1
+  split
+  · rfl
+  · rename_i n hn
+    split
+    · simp only [nget_ndel]
+      by_cases hg : g = f
+      · subst hg; simp [hn] at h; omega
+      · have : ¬ f = g := fun h => hg h.symm
+        simp [this]
+    · rfl
+
+theorem release_files (s : St) (fs : List Nat) (f : Nat) (h : fs.count f < (nget s.used f).getD 0) :
+    nget (release s fs).files f = nget s.files f := by
+  induction fs generalizing s with
+  | nil => rfl
+  | cons g fs ih =>
+    rw [List.count_cons] at h
+    rw [release_cons, ih, rel1_files]
+    · by_cases hg : g = f
+      · subst hg; simp at h ⊢; omega
+      · have : (g == f) = false := by simp [hg]
+        simp [hg, this] at h ⊢; omega
+    · rw [rel1_used]
+      by_cases hg : g = f
+      · subst hg; simp at h ⊢; omega
+      · have : (g == f) = false := by simp [hg]
+        simp [hg, this] at h ⊢; omega
+
+theorem rel1_files_none (s : St) (g f : Nat) (h : nget s.files f = none) :
+    nget (rel1 s g).files f = none := by
+  unfold rel1
+  split
+  · exact h
+  · split
+    · simp only [nget_ndel]; split <;> simp [h]
+    · exact h
+
+theorem release_files_none (s : St) (fs : List Nat) (f : Nat) (h : nget s.files f = none) :
+    nget (release s fs).files f = none := by
+  induction fs generalizing s with
+  | nil => exact h
+  | cons g fs ih => rw [release_cons]; exact ih _ (rel1_files_none s g f h)
 
 end Pk.Proofs.MgrViews
